@@ -375,11 +375,18 @@ func (p *peer) moveCall() bool {
 			p.r.s.Probe("pipelined_on_unreturned_answer")
 		}
 	}
+	var noops []int // positions (0 .. len(xform)) at which a noop step is inserted
+	if t.pa != nil {
+		for n := s.Choice("peer-noop-ops", 4); n > 1; n-- { // 0,1: none; 2: one; 3: two
+			noops = append(noops, s.Choice("peer-noop-at", len(t.xform)+1))
+			s.Probe("promised_answer_transform_with_noop")
+		}
+	}
 	p.myQ[q.id] = q
 	p.order = append(p.order, q.id)
 	q.sentSeq = p.r.s.Seq()
 	p.r.callSent(q)
-	p.send(fmt.Sprintf("Call q=%d target=%s token=%d flags=%b params=%v", q.id, q.target, q.token, q.flags, q.paramCaps), p.build(func(m rpccp.Message) error {
+	p.send(fmt.Sprintf("Call q=%d target=%s token=%d flags=%b params=%v noops=%v", q.id, q.target, q.token, q.flags, q.paramCaps, noops), p.build(func(m rpccp.Message) error {
 		c, err := m.NewCall()
 		if err != nil {
 			return err
@@ -399,12 +406,27 @@ func (p *peer) moveCall() bool {
 				return err
 			}
 			pa.SetQuestionId(t.pa.id)
-			ops, err := pa.NewTransform(int32(len(t.xform)))
+			// a transform may contain noop steps anywhere; they change nothing
+			ops, err := pa.NewTransform(int32(len(t.xform) + len(noops)))
 			if err != nil {
 				return err
 			}
+			k := 0
 			for i, f := range t.xform {
-				ops.At(i).SetGetPointerField(f)
+				for _, at := range noops {
+					if at == i {
+						ops.At(k).SetNoop()
+						k++
+					}
+				}
+				ops.At(k).SetGetPointerField(f)
+				k++
+			}
+			for _, at := range noops {
+				if at >= len(t.xform) {
+					ops.At(k).SetNoop()
+					k++
+				}
 			}
 		}
 		pl, err := c.NewParams()
@@ -907,6 +929,18 @@ func (p *peer) process(data []byte) {
 			r.peerGotReturn(q)
 			if q.fwdFor != nil {
 				p.relay(q)
+			}
+			if r.hostile && q.finishSent && q.releaseRes && s.Choice("h-double-release", 2) == 0 {
+				// a buggy peer: it had finished the question with releaseResultCaps and now releases
+				// the capabilities of the late Return once more, explicitly and at once (the Conn
+				// may still be busy tearing the answer down)
+				for _, cd := range q.retCaps {
+					if cd.kind == "senderHosted" {
+						s.Fault("hostile_message")
+						s.Probe("hostile:double_release_of_result_caps")
+						p.send(fmt.Sprintf("Release id=%d count=1 (again: already released through Finish)", cd.id), p.build(releaseMsg(cd.id, 1)))
+					}
+				}
 			}
 			if q.finishSent && q.releaseRes {
 				p.applyReleaseResultCaps(q)
